@@ -41,6 +41,11 @@ BONDS = [1, 2, 0.5, 1.5, 2.37, 10, 1e-3, 100.0, 1.0]
 ALIGNS = [[1, 0], [0, 1], [1, 1], [-1, 0], [0.3, -2.5], [1.0, 0.0], [0, -1]]
 
 
+# small molecules for vespr_refined_layout (scipy L-BFGS on a numerical gradient: seconds per atom)
+REFINED = ['{[#A]}.{#A=CC}', '{[#A]}.{#A=CO}', '{[#A]}.{#A=C=C}', '{[#A][#B]}.{#A=[$]C,#B=[$]O}', '{[#A]}.{#A=C#N}',
+           '{[#A]}.{#A=F/C=C\\F}', '{[#A]}.{#A=F/C=C/F}', '{[#A]}.{#A=CCO}']
+
+
 class Delegate:
     def __init__(self, real, **over):
         self.__dict__['_real'] = real
@@ -221,7 +226,20 @@ class C19(common.Prop):
                  5: 'the mean bond length differs from default_bond (relative tolerance 1e-9)',
                  6: 'rotate_subgraph / check_and_fix_cis_trans raised an exception',
                  7: 'rotate_subgraph / check_and_fix_cis_trans produced a non-finite coordinate',
-                 8: 'rotate_subgraph / check_and_fix_cis_trans changed a bond length'}
+                 8: 'rotate_subgraph / check_and_fix_cis_trans changed a bond length',
+                 9: 'vespr_refined_layout gave a node the optimised position of another node',
+                 10: 'circular_layout raised an exception on a ring graph',
+                 11: 'vespr_refined_layout raised an exception inside vespr_layout / the force minimisation'}
+
+    def known_class(self, case, impl, code):
+        if 'skip' in impl:
+            return None
+        if case['kind'] == 'circ' and code == 10 and case.get('align') is not None and impl.get('exc') == 1:
+            return 'circular_align_unbound_name'
+        if case['kind'] == 'refined' and code == 11 and impl.get('nez', 0) > 0 and impl.get('exc_name') == 'ValueError' \
+                and int(str(impl.get('numpy', '1')).split('.')[0]) >= 2:
+            return 'refined_dihedral_cross_2d'
+        return None
 
     def corpus(self, ctx):
         base = {'gseed': 1, 'perm': [], 'npseed': 5}
@@ -247,6 +265,13 @@ class C19(common.Prop):
                 dict(base, kind='layout', shape='ring', n=6, relabel='strings', db=2, edit={'op': 'remove_node', 'pick': 2}),
                 dict(base, kind='layout', shape='fused', n=6, relabel='identity', db=1.5, edit={'op': 'remove_edge', 'pick': 3}),
                 dict(base, kind='layout', shape='molecule', n=0, s=EZ[0], relabel='identity', db=1, edit={'op': 'add_node', 'pick': 4}),
+                # the other two LAYOUT_METHODS
+                dict(base, kind='refined', shape='molecule', n=0, s=REFINED[0], relabel='identity', db=1, maxiter=5),
+                dict(base, kind='refined', shape='molecule', n=0, s=REFINED[3], relabel='strings', db=1.5, maxiter=5, align=[1, 0]),
+                dict(base, kind='refined', shape='molecule', n=0, s=REFINED[5], relabel='identity', db=1, maxiter=5),
+                dict(base, kind='circ', shape='ring', n=6, relabel='identity', db=1),
+                dict(base, kind='circ', shape='ring', n=5, relabel='strings_perm', db=2.37),
+                dict(base, kind='circ', shape='ring', n=4, relabel='reversed', db=1, align=[1, 0]),
                 dict(base, kind='fix', shape='molecule', n=0, s=EZ[0], relabel='identity', fake=0),
                 dict(base, kind='fix', shape='molecule', n=0, s=EZ[1], relabel='strings', fake=0),
                 dict(base, kind='fix', shape='molecule', n=0, s=EZ[4], relabel='permute', fake=0),
@@ -271,7 +296,17 @@ class C19(common.Prop):
                 c['s'] = rng.choice(EZ) if r < 0.3 else rng.choice(SALTS) if r < 0.5 else \
                     _c18.rand_cgsmiles(rng, small=not ctx.thorough())
             c['orders'] = rng.choice(ORDERS)
-            if rng.random() < 0.75:
+            r0 = rng.random()
+            if r0 < 0.012:
+                c.update(kind='refined', shape='molecule', s=rng.choice(REFINED), orders='asis', maxiter=rng.choice([3, 5]),
+                         db=rng.choice(BONDS[:5]))
+                if rng.random() < 0.4:
+                    c['align'] = rng.choice(ALIGNS)
+            elif r0 < 0.08:
+                c.update(kind='circ', shape='ring', n=rng.randint(3, 10), db=rng.choice(BONDS))
+                if rng.random() < 0.3:
+                    c['align'] = rng.choice(ALIGNS)
+            elif rng.random() < 0.75:
                 c['kind'] = 'layout'
                 if rng.random() < 0.3:
                     c['edit'] = {'op': rng.choice(EDITS), 'pick': rng.randrange(1000)}
@@ -306,7 +341,129 @@ class C19(common.Prop):
             return self._run_layout(case, G, ids)
         if case['kind'] == 'fix':
             return self._run_fix(case, G, ids)
+        if case['kind'] == 'refined':
+            return self._run_refined(case, G, ids)
+        if case['kind'] == 'circ':
+            return self._run_circ(case, G, ids)
         return self._run_rot(case, G, ids)
+
+    def _run_refined(self, case, G, ids):
+        """vespr_refined_layout with few L-BFGS iterations (documented lbfgs_options / target_energy): the optimiser is
+        third party, what is judged is which node receives which row"""
+        import cgsmiles.graph_layout as gl
+        import cgsmiles.linalg_functions as lf
+        if any('order' not in d for _, _, d in G.edges(data=True)):
+            return {'skip': 'no-bond-orders'}         # the angle assignment reads edge orders: molecule graphs only
+        rec = {'vkeys': None, 'rows': None, 'opt_exc': None, 'r2a': [], 'rot': []}
+        real = (gl.vespr_layout, gl._force_minimize, gl.rotate_to_axis, lf.rotate)
+        align = case.get('align')
+
+        def vl(*a, **k):
+            try:
+                r = real[0](*a, **k)
+            except Exception as e:
+                rec['opt_exc'] = type(e).__name__
+                raise
+            rec['vkeys'] = [ids.get(x, -1) for x in r]
+            return r
+
+        def fm(*a, **k):
+            try:
+                r = real[1](*a, **k)
+            except Exception as e:
+                rec['opt_exc'] = type(e).__name__
+                raise
+            rec['rows'] = np.array(r[0], dtype=float).tolist()
+            return r
+
+        def r2a(positions, align_with):
+            r = real[2](positions, align_with)
+            rec['r2a'].append((np.array(positions, dtype=float).tolist(), np.array(r, dtype=float).tolist()))
+            return r
+
+        def rot(positions, angle, *a, **k):
+            if rec['rows'] is not None:
+                rec['rot'].append((float(np.cos(angle)), float(np.sin(angle)), len(a) + len(k)))
+            return real[3](positions, angle, *a, **k)
+        gl.vespr_layout, gl._force_minimize, gl.rotate_to_axis, lf.rotate = vl, fm, r2a, rot
+        out = {'nodes': [ids[x] for x in G.nodes], 'edges': [[ids[u], ids[v]] for u, v in G.edges], 'exc': 0, 'vkeys': [],
+               'rows': None, 'al': None, 'ain': [], 'mid': [], 'post': [],
+               'nez': sum(len(v) for v in nx.get_node_attributes(G, 'ez_isomer').values()), 'numpy': np.__version__}
+        state = np.random.get_state()
+        try:
+            np.random.seed(int(case['npseed']))
+            kw = {} if align is None else {'align_with': np.array(align, dtype=float)}
+            pos = gl.vespr_refined_layout(G, default_bond=case['db'], target_energy=1e300,
+                                          lbfgs_options={'maxiter': int(case.get('maxiter', 5))}, **kw)
+        except Exception as e:
+            out['exc'], out['exc_name'] = (4 if rec['opt_exc'] else 2), type(e).__name__
+            return out
+        finally:
+            gl.vespr_layout, gl._force_minimize, gl.rotate_to_axis, lf.rotate = real
+            np.random.set_state(state)
+        ok = isinstance(pos, dict) and all(k in ids for k in pos) and rec['rows'] is not None and \
+            all(isinstance(v, np.ndarray) and v.shape == (2,) for v in pos.values())
+        if not ok:
+            out['exc'] = 3
+            return out
+        out['vkeys'], out['rows'] = rec['vkeys'], rec['rows']
+        nan = float('nan')
+        if align is None and not rec['r2a']:
+            pass
+        elif align is not None and len(rec['r2a']) == 1 and len(rec['rot']) == 1 and rec['rot'][0][2] == 0:
+            out['al'] = [rec['rot'][0][0], rec['rot'][0][1]]
+            out['ain'], out['mid'] = rec['r2a'][0]
+        else:
+            out['al'] = [nan, nan]
+        out['post'] = [[ids[k], [float(v[0]), float(v[1])]] for k, v in pos.items()]
+        return out
+
+    def _run_circ(self, case, G, ids):
+        """circular_layout(graph, radius, align_with) on ring graphs (its domain: the graph is one cycle)"""
+        import cgsmiles.graph_layout as gl
+        import cgsmiles.linalg_functions as lf
+        rec = {'coords': [], 'cyc': [], 'rot': []}
+        real_gc, real_nx, real_rot = gl._generate_circle_coordinates, gl.nx, lf.rotate
+        align = case.get('align')
+
+        def gc(*a, **k):
+            r = real_gc(*a, **k)
+            rec['coords'] = np.array(r, dtype=float).tolist()
+            return r
+
+        def fc(*a, **k):
+            r = list(real_nx.find_cycle(*a, **k))
+            rec['cyc'] = [[ids[e[0]], ids[e[1]]] for e in r]
+            return r
+
+        def rot(positions, angle, *a, **k):
+            rec['rot'].append((float(np.cos(angle)), float(np.sin(angle))))
+            return real_rot(positions, angle, *a, **k)
+        gl._generate_circle_coordinates, gl.nx, lf.rotate = gc, Delegate(real_nx, find_cycle=fc), rot
+        nan = float('nan')
+        out = {'nodes': [ids[x] for x in G.nodes], 'edges': [[ids[u], ids[v]] for u, v in G.edges], 'exc': 0,
+               'al': None if align is None else [nan, nan], 'coords': [], 'cyc': [], 'post': []}
+        try:
+            kw = {} if align is None else {'align_with': np.array(align, dtype=float)}
+            pos = gl.circular_layout(G, case['db'], **kw)
+        except UnboundLocalError:
+            out['exc'], out['exc_name'] = 1, 'UnboundLocalError'
+            pos = None
+        except Exception as e:
+            out['exc'], out['exc_name'] = 2, type(e).__name__
+            pos = None
+        finally:
+            gl._generate_circle_coordinates, gl.nx, lf.rotate = real_gc, real_nx, real_rot
+        out['coords'], out['cyc'] = rec['coords'], rec['cyc']
+        if align is not None and len(rec['rot']) == 1:
+            out['al'] = list(rec['rot'][0])
+        if pos is not None:
+            if not (isinstance(pos, dict) and all(k in ids for k in pos) and
+                    all(isinstance(v, np.ndarray) and v.shape == (2,) for v in pos.values())):
+                out['exc'] = 3
+            else:
+                out['post'] = [[ids[k], [float(v[0]), float(v[1])]] for k, v in pos.items()]
+        return out
 
     def _run_fix(self, case, G, ids):
         import cgsmiles.graph_layout_utils as gu
@@ -538,6 +695,25 @@ class C19(common.Prop):
                 return 4
             m = sum(math.dist(post[u], post[v]) for u, v in impl['edges']) / len(impl['edges'])
             return 0 if abs(m - impl['db']) <= 1e-9 * abs(impl['db']) else 5
+        if case['kind'] in ('refined', 'circ'):
+            if impl['exc'] == 4:
+                return 11
+            if impl['exc'] == 3:
+                return 2
+            if impl['exc']:
+                return 1 if case['kind'] == 'refined' else 10
+            post = dict((k, p) for k, p in impl['post'])
+            if len(impl['post']) != len(impl['nodes']) or any(n not in post for n in impl['nodes']):
+                return 2
+            if any(not math.isfinite(x) for p in post.values() for x in p):
+                return 3
+            if any(post[u] == post[v] for u, v in impl['edges']):
+                return 4
+            if case['kind'] == 'refined':
+                final = impl['mid'] if impl['al'] is not None else impl['rows']
+                if len(final) != len(impl['vkeys']) or any(post.get(k) != list(r) for k, r in zip(impl['vkeys'], final)):
+                    return 9
+            return 0
         if impl['exc']:
             return 6
         pre, post = (dict((k, p) for k, p in impl[x]) for x in ('pre', 'post'))
@@ -572,6 +748,17 @@ class C19(common.Prop):
             return '(CLayout %s %s %s %s %s %s %s %s %s %s)' % (zl(impl['nodes']), ed, fhex(impl['db']), lit.nat(impl['exc']),
                                                             pl(impl['pre']), al, pl(impl.get('ain', [])), pl(impl.get('mid', [])),
                                                             lit.lst([fhex(x) for x in impl['lens']]), pl(impl['post']))
+        rl = lambda t: lit.lst([v2(p) for p in t])
+        alit = lambda a: 'None' if a is None else '(Some (%s, %s))' % (fhex(a[0]), fhex(a[1]))
+        if case['kind'] == 'refined':
+            opt = '(Err EValue)' if impl['rows'] is None else '(Ok %s)' % rl(impl['rows'])
+            return '(CRefined %s %s %s %s %s %s %s %s %s)' % (zl(impl['nodes']), ed, lit.nat(impl['exc']), zl(impl['vkeys']), opt,
+                                                             alit(impl['al']), rl(impl['ain']), rl(impl['mid']), pl(impl['post']))
+        if case['kind'] == 'circ':
+            return '(CCirc %s %s %s %s %s %s %s)' % (zl(impl['nodes']), ed, alit(impl['al']), lit.nat(impl['exc']),
+                                                    rl(impl['coords']),
+                                                    lit.lst([lit.pair(lit.z(u), lit.z(v)) for u, v in impl['cyc']]),
+                                                    pl(impl['post']))
         if case['kind'] == 'fix':
             ty = {0: 'EzTrans', 1: 'EzCis', 2: 'EzOther'}
             its = lit.lst(['{| ez1 := %s; ez2 := %s; ez3 := %s; ez4 := %s; ezty := %s; lt14 := %s |}'
